@@ -53,7 +53,7 @@ def trees(depth):
 
 def rand_tree(rng, depth):
     if depth == 0 or rng.random() < 0.35:
-        return rng.choice(ATOMS + ["a", "b", "c"])
+        return rng.choice(["a", "b", "c", "a", "b", "c", "a", "b", "c", "a", "b", 1])   # mostly valid members
     return tuple(rand_tree(rng, depth - 1) for _ in range(rng.choice([0, 1, 1, 2, 2, 3])))
 
 
@@ -86,7 +86,7 @@ def check_keys(R, U):
     if R.quick:
         t2 = trees(2)
         ks += [t2[rng.randrange(len(t2))] for _ in range(6000)]
-    ks += [rand_tree(rng, 3) for _ in range(4000 if R.quick else 60000)]
+    ks += [rand_tree(rng, 3) for _ in range(12000 if R.quick else 80000)]
     R.exhaustive = not R.quick
     lines_t_cpp, lines_t_py, lines_k_cpp, lines_k_py = [], [], [], []
     obs = []
@@ -359,6 +359,11 @@ def main(R):
                      "dynamo's tracing is not modelled: program equivalence is established by this run only (partial)"]
     R.trusted = ["Spec/PySlice validated against CPython slice.indices on the same grid in this run",
                  "harness/cext.py: g++ rebuild of tensordict/csrc from the working tree, loaded as tensordict._C"]
+    from . import translate, tr_c18  # noqa: F401
+    try:
+        translate.run("c18_sites")
+    except translate.TranslateError as e:
+        R.broken.append(f"translator c18_sites: {e}")
     R.step_prove()
     ok = R.step_driver()
     torch, tensordict, U, TDM, B = _imports()
